@@ -232,7 +232,7 @@ IP_FIELDS = (("version", "Nat"), ("ttl", "Nat"), ("tos", "Nat"), ("options_lengt
 IP_RET = "Tuple:" + ",".join(t for _, t in IP_FIELDS)
 IP_LEAN_RET = "Nat × Nat × Nat × Int × Int × Bool × QSet"
 TARGETS.append(dict(
-    module="pyp0f.net.layers.ip", func="IP._from_ipv4", file="FromIpv4", lean="fromIpv4", import_="P0f.Model.Wire",
+    module="pyp0f.net.layers.ip", func="IP._from_ipv4", file="FromIpv4", lean="fromIpv4", import_="P0f.Model.WireFields",
     decorators=("classmethod",), pyparams=["cls", "ip"], params=[("ip", "Ip4F")], ret=IP_RET, lean_ret=IP_LEAN_RET,
     env={"ip.tos": ("ip.tos", "Nat"), "ip.flags.evil": ("ip.evil", "Bool"), "ip.flags.DF": ("ip.df", "Bool"),
          "ip.flags.MF": ("ip.mf", "Bool"), "ip.id": ("ip.ident", "Nat"), "ip.ihl": ("ip.ihl", "Nat"), "ip.frag": ("ip.frag", "Nat"),
@@ -241,7 +241,7 @@ TARGETS.append(dict(
     alias="def fromIpv4 (ip : Ip4F) : " + IP_LEAN_RET + " := P0f.ipv4Fields ip\n",
 ))
 TARGETS.append(dict(
-    module="pyp0f.net.layers.ip", func="IP._from_ipv6", file="FromIpv6", lean="fromIpv6", import_="P0f.Model.Wire",
+    module="pyp0f.net.layers.ip", func="IP._from_ipv6", file="FromIpv6", lean="fromIpv6", import_="P0f.Model.WireFields",
     decorators=("classmethod",), pyparams=["cls", "ip"], params=[("ip", "Ip6F")], ret=IP_RET, lean_ret=IP_LEAN_RET,
     env={"ip.fl": ("ip.fl", "Nat"), "ip.tc": ("ip.tc", "Nat"), "ip.version": ("ip.version", "Nat"), "ip.hlim": ("ip.hlim", "Nat"),
          "ip.src": ("()", "Unit"), "ip.dst": ("()", "Unit")},
@@ -286,7 +286,7 @@ def _opts_parse(fn, args, kw, env):
 
 TCP_FIELDS = (("type", "Nat"), ("options", "Bool"), ("header_length", "Int"), ("quirks", "QSet"))
 TARGETS.append(dict(
-    module="pyp0f.net.layers.tcp.tcp", func="TCP.from_packet", file="TcpFromPacket", lean="tcpFromPacket", import_="P0f.Model.Wire",
+    module="pyp0f.net.layers.tcp.tcp", func="TCP.from_packet", file="TcpFromPacket", lean="tcpFromPacket", import_="P0f.Model.WireFields",
     decorators=("classmethod",), pyparams=["cls", "packet"], params=[("tcp", "TcpF")],
     ret="Tuple:Nat,Bool,Int,QSet", lean_ret="Nat × Bool × Int × QSet", pre=_tcp_pre,
     env={"tcp.flags": ("tcp.flags", "Nat"), "tcp.flags.E": ("(bit tcp.flags 64)", "Bool"), "tcp.flags.C": ("(bit tcp.flags 128)", "Bool"),
